@@ -328,10 +328,10 @@ class _World:
     def cut(self, u, v, lab) -> bool:
         return self._cut(u, lab, True)
 
-    def reach(self, starts=None, *, cut_nodes=(), follow_exc: bool = True):
-        base = self.cfg.reach(starts, cut_nodes=cut_nodes, cut_edge=self.cut, follow_exc=follow_exc)
+    def reach(self, starts=None, *, cut_nodes=(), follow_exc: bool = True, cut_out_normal=()):
+        base = self.cfg.reach(starts, cut_nodes=cut_nodes, cut_edge=self.cut, follow_exc=follow_exc, cut_out_normal=cut_out_normal)
         for var in self._decision_vars():
-            base &= self._reach_tracking(var, starts, set(cut_nodes), follow_exc)
+            base &= self._reach_tracking(var, starts, set(cut_nodes), follow_exc, set(cut_out_normal))
         return base
 
     # -- one decision variable followed along the paths (decide-then-act on a verdict with several possible values)
@@ -374,7 +374,7 @@ class _World:
             self._memo[k] = out
         return self._memo[k]
 
-    def _reach_tracking(self, var: str, starts, cut_nodes: set, follow_exc: bool) -> set:
+    def _reach_tracking(self, var: str, starts, cut_nodes: set, follow_exc: bool, cut_out_normal: set = frozenset()) -> set:
         """Nodes reachable when the value last assigned to `var` is remembered along the path and decides the tests on it."""
         alts = self._alts(var)
         todo = [(s_, None) for s_ in ([self.cfg.entry] if starts is None else list(starts)) if s_ not in cut_nodes]
@@ -385,7 +385,7 @@ class _World:
                 continue
             seen.add((u, tag))
             for v, lab in u.succ:
-                if v in cut_nodes or lab == "exc" and not follow_exc:
+                if v in cut_nodes or lab == "exc" and not follow_exc or lab != "exc" and u in cut_out_normal:
                     continue
                 if self._cut_given(u, lab, var, tag):
                     continue
@@ -421,8 +421,8 @@ class _World:
                 if id(st) in seen:
                     continue
                 seen.add(id(st))
-                if isinstance(st, ast.Assign) and len(st.targets) == 1 and st.targets[0] is t:
-                    out.append((st, st.value))
+                if isinstance(st, ast.Assign) and any(tt is t for tt in st.targets):
+                    out.append((st, st.value))                      # also `a = b = value`: every target gets the one value
                 elif isinstance(st, ast.AnnAssign) and st.value is not None and st.target is t:
                     out.append((st, st.value))
                 else:
@@ -468,6 +468,16 @@ class _World:
             if isinstance(x, ast.Name) and not is_param(self.fi, c) and len(self.defs(c)) == 1:
                 continue                                            # one binding: every use sees the same definition
             dn = self._def_nodes(c)
+            if isinstance(x, ast.Name) and not is_param(self.fi, c) and not (dn & self.pinned) and node is not None and node not in dn:
+                # a plain local bound on several branches (an inlined "parse or None" phase: `cell = None` / `cell = parse(data)`):
+                # when no binding of it can run after `node`, the value read here is the one every later read sees - the assumption
+                # speaks about that final value.  (A use that a binding can still follow stays undecided, so two tests never refer
+                # to different values of the local.)
+                k = ("final", c, node.id)
+                if k not in self._memo:
+                    self._memo[k] = not (dn & self.cfg.reach([v for v, _lab in node.succ]))
+                if self._memo[k]:
+                    continue
             kill = (dn & self.pinned) - {node}                      # the pinned binding hides every earlier one
             for d in dn:
                 if d is node or d in self.pinned:
@@ -688,6 +698,43 @@ class _World:
         return (vals, truths) if vals else None
 
     def _absvals(self, e: ast.AST, node, depth: int) -> set:
+        out = self._absvals0(e, node, depth)
+        if out == {None} and self._declared_nonnull(e):
+            return {("n",)}                                         # nothing more is known than "some object, not None"
+        return out
+
+    def _declared_nonnull(self, e: ast.AST, _depth: int = 0) -> bool:
+        """
+        e is declared to be an object other than None: `cast(T, x)` with a non-Optional T, an instance construction, or a call
+        every possible target of which is annotated with a non-Optional return type.  (Recorded assumption: the declared types
+        of the repository hold - they are what its type checker enforces.)
+        """
+        if self.ctx is None or _depth > 3:
+            return False
+        repo = self.ctx.repo
+        ok = False
+        if isinstance(e, ast.Call) and chain(e.func) in ("cast", "typing.cast") and len(e.args) == 2 and not e.keywords:
+            ok = _nonoptional_type(repo, self.fi.module, e.args[0]) or self._declared_nonnull(e.args[1], _depth + 1)
+        else:
+            awaited = isinstance(e, ast.Await)
+            call = strip_cast(e.value) if awaited else e
+            if isinstance(call, ast.Call):
+                if not awaited and self._cls_of(call.func) is not None and not any(c.methods.get("__new__") for c in self._cls_of(call.func).mro()):
+                    ok = True
+                else:
+                    try:
+                        ts = repo.resolve_call(self.fi, call)
+                    except Exception:  # noqa: BLE001
+                        ts = []
+                    ok = bool(ts) and all(bool(t.is_async) == awaited and all(d in ("staticmethod", "classmethod") for d in t.decorator_names())
+                                          and not any(isinstance(n, (ast.Yield, ast.YieldFrom)) for n in walk_no_nested(t.node))
+                                          and t.node.returns is not None and _nonoptional_type(repo, t.module, t.node.returns) for t in ts)
+        if ok:
+            self.ctx.assume("declared types hold: a value whose declared type (return annotation of every possible callee, cast target, constructed class) "
+                            "is not Optional is not None")
+        return ok
+
+    def _absvals0(self, e: ast.AST, node, depth: int) -> set:
         e = strip_cast(e)
         cl = self._const_like(e)
         if cl is not None:
@@ -1055,6 +1102,42 @@ class _World:
         if av[0] == "e":
             return False if ident or cv is None or _enum_kind(av[1]) == "plain" else None
         return False if cv is None or isinstance(cv, (bool, int, float, str, bytes)) else None
+
+
+_NONNULL_TYPES = frozenset({"int", "str", "bytes", "bool", "float", "list", "dict", "tuple", "set", "frozenset", "bytearray", "List", "Dict", "Tuple", "Set",
+                            "FrozenSet", "Sequence", "Mapping", "Iterable", "Iterator", "Collection", "Callable", "Awaitable", "Coroutine", "Future", "type"})
+
+
+def _nonoptional_type(repo, module, t: ast.AST, depth: int = 0) -> bool:
+    """The annotation names a type None is not an instance of (a builtin container / scalar, a repository class, a union of such)."""
+    if depth > 3:
+        return False
+    if isinstance(t, ast.Constant):
+        p = _parse(t.value) if isinstance(t.value, str) else None
+        return p is not None and _nonoptional_type(repo, module, p, depth + 1)
+    if isinstance(t, ast.Name):
+        if t.id in _NONNULL_TYPES:
+            return True
+        try:
+            r = repo.resolve_name(module, t.id)
+        except Exception:  # noqa: BLE001
+            return False
+        if isinstance(r, tuple) and r and r[0] == "const" and len(r) == 3:
+            return _nonoptional_type(repo, r[1], r[2], depth + 1)   # a type alias of the repository
+        if r is None and t.id in module.imports and module.imports[t.id][1] is not None and repo.modules.get(module.imports[t.id][0]) is None:
+            # a class imported from outside the repository (CapWords name; the typing constructs that admit None are excluded)
+            return t.id[:1].isupper() and not t.id.isupper() and t.id not in ("Any", "Optional", "Union", "NoReturn", "Never", "Self", "TypeVar", "Generic", "Literal", "Annotated")
+        return r is not None and r.__class__.__name__ == "ClassInfo"
+    if isinstance(t, ast.Attribute):
+        try:
+            return repo.resolve_class_expr(module, t) is not None
+        except Exception:  # noqa: BLE001
+            return False
+    if isinstance(t, ast.Subscript):
+        return isinstance(t.value, ast.Name) and t.value.id in _NONNULL_TYPES
+    if isinstance(t, ast.BinOp) and isinstance(t.op, ast.BitOr):
+        return _nonoptional_type(repo, module, t.left, depth + 1) and _nonoptional_type(repo, module, t.right, depth + 1)
+    return False
 
 
 def _len_arg(e: ast.AST):
@@ -2400,6 +2483,149 @@ class _ForeignInliner:
         self.root.body = self.block(self.root.body)
 
 
+_CM_DECORATORS = {"contextmanager": ast.With, "contextlib.contextmanager": ast.With,
+                  "asynccontextmanager": ast.AsyncWith, "contextlib.asynccontextmanager": ast.AsyncWith}
+
+
+def _cm_generator(repo, fi: FuncInfo, st: ast.stmt):
+    """
+    (generator function, its one `yield` statement) when `with <call>:` enters a NEW private generator-based context manager
+    (@contextmanager / @asynccontextmanager, one item): one plain `yield [value]` statement outside every loop, no return.
+    Such a `with` runs the generator up to the yield, the block where the yield stands (an exception of the block is raised AT
+    the yield, so the generator's own try / except / finally around it decides whether it is swallowed), then the rest.
+    """
+    if not isinstance(st, (ast.With, ast.AsyncWith)) or len(st.items) != 1 or not isinstance(st.items[0].context_expr, ast.Call):
+        return None
+    it = st.items[0]
+    if it.optional_vars is not None and not isinstance(it.optional_vars, ast.Name):
+        return None
+    ts = _new_helper_targets(repo, fi, it.context_expr)
+    if len(ts) != 1:
+        return None
+    g = ts[0]
+    dn = g.decorator_names()
+    if len(dn) != 1 or _CM_DECORATORS.get(dn[0]) is not type(st) or isinstance(g.node.decorator_list[0], ast.Call):
+        return None
+    if g.cls is not None and (len(_functions_named(repo, g.name)) != 1 or _attr_stored(repo, g.name)):
+        return None                                                 # an overridable hook / rebindable attribute: not one known body
+    ys = [n for n in walk_no_nested(g.node, include_root_defs=False) if isinstance(n, (ast.Yield, ast.YieldFrom, ast.Return, ast.Global, ast.Nonlocal))]
+    if len(ys) != 1 or not isinstance(ys[0], ast.Yield):
+        return None
+    y = ys[0]
+    ys_stmt = getattr(y, "_parent", None)
+    if not isinstance(ys_stmt, ast.Expr):
+        return None
+    p = getattr(ys_stmt, "_parent", None)
+    while p is not None and p is not g.node:
+        if isinstance(p, (ast.For, ast.AsyncFor, ast.While, ast.FunctionDef, ast.AsyncFunctionDef, ast.Lambda, ast.ClassDef)):
+            return None
+        if isinstance(p, ast.ExceptHandler) or isinstance(p, ast.Try) and any(ys_stmt is x or any(ys_stmt is z for z in ast.walk(x)) for x in p.finalbody + p.orelse):
+            return None                                             # yield inside a handler / finally / else: not the plain bracket shape
+        p = getattr(p, "_parent", None)
+    if p is not g.node:
+        return None
+    # the managed block must leave only by finishing or raising (a return / break / continue in it would still run the generator's tail)
+    if any(isinstance(n, (ast.Return, ast.Break, ast.Continue, ast.Yield, ast.YieldFrom)) for b in st.body for n in walk_no_nested(b)):
+        return None
+    return g, ys_stmt
+
+
+class _CmDesugar:
+    """
+    `with self._new_cm(args): BLOCK` for such a context manager -> the generator's statements with the parameters bound and
+    BLOCK in the place of the yield (what the interpreter runs, in the same order); `as x` becomes `x = <yielded value>`.
+    """
+
+    def __init__(self, repo, fi: FuncInfo, root) -> None:
+        self.repo, self.fi, self.root, self.changed = repo, fi, root, False
+        self.inl = _ForeignInliner(repo, fi, root)
+
+    def one(self, st: ast.stmt):
+        t = _cm_generator(self.repo, self.fi, st)
+        if t is None:
+            return None
+        g, ys_stmt = t
+        call = st.items[0].context_expr
+        inl = self.inl
+        recv = call.func.value if g.cls is not None and isinstance(call.func, ast.Attribute) and "staticmethod" not in g.decorator_names() else None
+        m = inl._bind(g, recv, call)
+        body = _helper_body(g)
+        if m is None or not body or not inl._names_ok(g, body, set(m)):
+            return None
+        if any(isinstance(h, ast.ExceptHandler) and h.name is not None and (h.name in inl.taken or h.name in m) for b in body for h in ast.walk(b)):
+            return None
+        stored_in_block = {n.id for b in st.body for n in ast.walk(b) if isinstance(n, ast.Name) and isinstance(n.ctx, (ast.Store, ast.Del))}
+        pre, mapping = [], {}
+        for p_, x in m.items():
+            xs = strip_cast(x)
+            if isinstance(xs, ast.Constant) or isinstance(xs, ast.Name) and xs.id not in stored_in_block:
+                mapping[p_] = x                                     # the name means the same object whenever the generator reads it
+            else:
+                nm = inl._fresh(p_)
+                pre.append(ast.Assign(targets=[ast.Name(id=nm, ctx=ast.Store())], value=clone(x), type_comment=None))
+                mapping[p_] = ast.Name(id=nm, ctx=ast.Load())
+        ren = {}
+        for b in body:
+            for n in ast.walk(b):
+                if isinstance(n, ast.Name) and isinstance(n.ctx, (ast.Store, ast.Del)) and n.id not in ren:
+                    ren[n.id] = inl._fresh(n.id) if n.id in inl.taken else n.id
+                    inl.taken.add(ren[n.id])
+        gen = []
+        for b in body:
+            b2 = clone(b)
+            for n in ast.walk(b2):
+                if isinstance(n, ast.Name) and n.id in ren:
+                    n.id = ren[n.id]
+            gen.append(_relocate(_Subst(mapping).visit(b2), st))
+        block = list(st.body)
+        done = [False]
+
+        def paste(stmts: list) -> list:
+            out = []
+            for b in stmts:
+                if isinstance(b, ast.Expr) and isinstance(b.value, ast.Yield):
+                    if st.items[0].optional_vars is not None:
+                        out.append(_relocate(ast.Assign(targets=[clone(st.items[0].optional_vars)], type_comment=None,
+                                                        value=b.value.value if b.value.value is not None else ast.Constant(value=None)), st))
+                    out.extend(block)
+                    done[0] = True
+                    continue
+                for f in ("body", "orelse", "finalbody"):
+                    v = getattr(b, f, None)
+                    if isinstance(v, list) and v and isinstance(v[0], ast.stmt):
+                        setattr(b, f, paste(v))
+                for h in getattr(b, "handlers", None) or []:
+                    h.body = paste(h.body)
+                out.append(b)
+            return out
+        out = [_relocate(x, st) for x in pre] + paste(gen)
+        return out if done[0] else None
+
+    def block(self, stmts: list) -> list:
+        out = []
+        for st in stmts:
+            if isinstance(st, (ast.FunctionDef, ast.AsyncFunctionDef, ast.ClassDef)):
+                out.append(st)
+                continue
+            for f in ("body", "orelse", "finalbody"):
+                v = getattr(st, f, None)
+                if isinstance(v, list) and v and isinstance(v[0], ast.stmt):
+                    setattr(st, f, self.block(v))
+            for h in getattr(st, "handlers", []) or []:
+                h.body = self.block(h.body)
+            r = self.one(st)
+            if r is not None:
+                self.changed = True
+                out.extend(r)
+            else:
+                out.append(st)
+        return out
+
+
+def _has_cm_with(repo, fi: FuncInfo) -> bool:
+    return any(isinstance(n, (ast.With, ast.AsyncWith)) and _cm_generator(repo, fi, n) is not None for n in walk_no_nested(fi.node))
+
+
 def _may_call_foreign(repo, fi: FuncInfo) -> bool:
     for c in ast.walk(fi.node):
         if isinstance(c, ast.Call) and _foreign_target(repo, fi, c) is not None:
@@ -2419,6 +2645,14 @@ def _derived(fi: FuncInfo, node) -> FuncInfo:
 
 def _make_view(repo, fi: FuncInfo, _level: int = 0) -> FuncInfo:
     interesting = False
+    if _level < 4 and _has_cm_with(repo, fi):
+        node0 = clone(fi.node)
+        set_parents(node0)
+        v0 = FuncInfo(fi.name, fi.qualname, node0, fi.module, fi.cls)
+        cm = _CmDesugar(repo, v0, node0)
+        node0.body = cm.block(node0.body)
+        if cm.changed:
+            return _make_view(repo, _derived(fi, node0), _level + 1)
     if _level < 4 and _may_call_foreign(repo, fi):
         node0 = clone(fi.node)
         set_parents(node0)
@@ -3904,6 +4138,21 @@ def rule_limits(ctx: Ctx) -> None:
             ok = ok and seen > 0
     ctx.check(ok, "relay-early-budget", mre or rc, (mre or rc).node, "max_relay_early is the configured setting (default 8)",
               "the relay_early budget is not the configured number")
+    if mre is not None:
+        # the getter is evaluated on every use: TunnelSettings.max_relay_early has a setter for run-time changes, a memoised getter
+        # keeps the number that was configured when the first cell was handled
+        memo = []
+        for d in mre.node.decorator_list:
+            f = d.func if isinstance(d, ast.Call) else d
+            nm = chain(f) or ""
+            if isinstance(f, ast.Name) and f.id in mre.module.imports and mre.module.imports[f.id][1] is not None:
+                nm = ".".join(x for x in mre.module.imports[f.id] if x)
+            if nm.rsplit(".", 1)[-1] in ("cached_property", "lru_cache", "cache", "cached", "memoize", "memoized"):
+                memo.append(norm(d))
+        ctx.check(not memo, "relay-early-budget", mre, mre.node, "max_relay_early is read from the settings on every use (not memoised)",
+                  f"PythonCryptoEndpoint.max_relay_early is memoised (@{', @'.join(memo)}): the budget tests in relay_cell / process_cell / send_cell keep the value of "
+                  "the first use, so a budget lowered at run time through TunnelSettings.max_relay_early's setter is ignored and the relay keeps forwarding "
+                  "relay_early cells up to the old number per circuit")
     # ---- originator: flag == (extend or budget left), decided as a truth table over the two conditions
     sc = _meth(ctx, "PythonCryptoEndpoint", "send_cell", CR)
     cfgs2 = ctx.cfg(sc)
@@ -4077,9 +4326,18 @@ def _rule_watchdog(ctx: Ctx) -> None:
         ready = any(g.op == "eq" and g.pos and "CIRCUIT_STATE_READY" in (norm(g.left), norm(g.right)) and
                     (norm(g.left).endswith(".state") or norm(g.right).endswith(".state")) for g in fs)
         tg = settles(fi, cfg, rearm)
-        followed = bool(tg) and all(cfg.always_followed_by(pn, [t for t in tg if t is not pn]) or pn in tg for pn in cfg.nodes_for(site))
+        # decided on the plain CFG first; otherwise with the values of verdict locals followed along the paths (a sentinel such as
+        # `keys = None ... if keys is None: return` that tells whether a guarded block was abandoned)
+        w = _World(fi, cfg, {}, ctx=ctx)
+
+        def followed_from(pn) -> bool:
+            rest = [t for t in tg if t is not pn]
+            return cfg.always_followed_by(pn, rest) or cfg.exit not in w.reach([v for v, lab in pn.succ if lab != "exc"], cut_nodes=rest, follow_exc=False)
+
+        followed = bool(tg) and all(pn in tg or followed_from(pn) for pn in cfg.nodes_for(site))
         ver = [x for v in calls(fi) if call_name(v) == "verify_and_generate_shared_secret" for x in cfg.nodes_for(v)]
-        verified = None if not ver else all(cfg.must_complete(pn, ver) for pn in cfg.nodes_for(site))
+        verified = None if not ver else all(cfg.must_complete(pn, ver) or pn not in w.reach(cut_out_normal=[t for t in ver if t is not pn])
+                                            for pn in cfg.nodes_for(site))
         if depth > 0 and _is_new(fi) and _private(fi) and not (ready or followed) or depth > 0 and _is_new(fi) and _private(fi) and verified is None:
             users = [(g, c) for m, g, c in repo.callers_of_name(fi.name) if g is not None and g.node is not fi.node]
             values = [a for m, g, a in repo.attribute_uses(fi.name) if not (isinstance(getattr(a, "_parent", None), ast.Call) and a._parent.func is a)]
@@ -4096,7 +4354,16 @@ def _rule_watchdog(ctx: Ctx) -> None:
         return ready, followed, verified, fs
 
     n = 0
-    for fi, c in _retry_cache_pops(repo):
+    sites, seen_fn = [], set()
+    for fi0, c0 in _retry_cache_pops(repo):
+        v = _view(ctx, fi0)
+        if v is fi0:
+            sites.append((fi0, c0))
+        elif id(fi0.node) not in seen_fn:
+            # the function as the interpreter runs it (private context managers / helpers of other modules pasted in): its pops
+            seen_fn.add(id(fi0.node))
+            sites.extend((v, c) for c in calls(v, "pop") if arg(c, 0) is not None and chain(resolve(v, arg(c, 0))) == "RetryRequestCache")
+    for fi, c in sites:
         n += 1
         if fi.name == "remove_circuit" or _only_reached_from(repo, fi, ("TunnelCommunity.remove_circuit",)):
             ctx.instance(rule, fi.where, "retry cache dropped by remove_circuit itself", line=c.lineno)
@@ -4181,6 +4448,8 @@ def run(ctx: Ctx) -> None:
 
 
 WITNESSES = [
+    {"name": "relay_early budget getter memoised", "file": CR, "rule": "relay-early-budget",
+     "old": "    @property\n    def max_relay_early(self) -> int:", "new": "    @cached_property\n    def max_relay_early(self) -> int:"},
     {"name": "destroy of an own circuit addressed to the verified path only", "file": TC, "rule": "destroy-propagates",
      "old": "        sock_addr = circuit.hop.address\n        self.send_destroy(sock_addr, circuit.circuit_id, reason)",
      "new": "        sock_addr = circuit.hops[0].address\n        self.send_destroy(sock_addr, circuit.circuit_id, reason)"},
